@@ -322,6 +322,7 @@ type Features struct {
 	Foreign      bool // foreign chains, rules and sets in the prior state
 	InitialSync  bool // the history starts with a full synchronisation
 	CNI          bool // CNI-triggered SyncPodChains / SyncPodIPInIPSet operations
+	NonCanon     bool // ipBlock cidr / except values written with host bits set (10.244.1.3/16), as the API accepts them
 }
 
 func genFeatures(c *core.Choices) Features {
@@ -343,6 +344,7 @@ func genFeatures(c *core.Choices) Features {
 		Foreign:      c.Prob(2, 3),
 		InitialSync:  c.Prob(1, 2),
 		CNI:          c.Prob(1, 3),
+		NonCanon:     c.Prob(1, 3),
 	}
 }
 
@@ -473,7 +475,7 @@ func (g *Gen) block(cl *Cluster, used map[string]bool) *Block {
 			break
 		}
 	}
-	used[cidr] = true
+	used[cidr] = true // keyed by the masked form
 	b := &Block{CIDR: cidr}
 	base, bits, _ := parsePrefix(cidr)
 	var inside []uint32
@@ -495,10 +497,17 @@ func (g *Gen) block(cl *Cluster, used map[string]bool) *Block {
 		}
 		ex := fmt.Sprintf("%s/%d", u32ToIP(a&maskOf(eb)), eb)
 		if used[ex] {
-			continue // the same text twice in one rule would be one ipset member with two meanings
+			continue // the same network twice in one rule would be one ipset member with two meanings
 		}
 		used[ex] = true
+		if g.F.NonCanon && g.C.Prob(1, 2) {
+			// host bits set, e.g. 10.244.1.3/24: the API server stores it as written
+			ex = fmt.Sprintf("%s/%d", u32ToIP(a), eb)
+		}
 		b.Except = append(b.Except, ex)
+	}
+	if g.F.NonCanon && bits > 0 && bits < 32 && len(inside) > 0 && g.C.Prob(1, 2) {
+		b.CIDR = fmt.Sprintf("%s/%d", u32ToIP(inside[g.C.Choose(len(inside))]), bits)
 	}
 	return b
 }
